@@ -23,7 +23,7 @@ def profile() -> Dict:
         "weights": {"compose": 2.0, "compose_tactics": 2.0, "quotient": 1.5, "quotient_tactics": 2.0, "elim_refine": 2.5, "elim_relax": 2.0,
                     "tl_rename_variable": 1.5, "tl_simplify": 1.5, "parse": 1.5, "from_strings": 1.2, "merge": 1.2,
                     "contains_behavior": 0.5, "evaluate": 0.5, "is_empty": 0.5, "contains_environment": 0.4, "contains_implementation": 0.4,
-                    "vertices": 0.5, "c_vars": 0.5, "tl_vars": 0.4, "c_hash": 0.3, "compound_from_strings": 0.3, "compound_misc": 0.3, "compound_purity": 0.6, "compound_file": 0.3, "compound_merge": 0.3, "compound_le": 0.3, "c_eq": 0.3, "tl_eq": 0.3, "c_str": 0.3},
+                    "vertices": 0.5, "c_vars": 0.5, "tl_vars": 0.4, "c_hash": 0.3, "compound_from_strings": 0.3, "compound_misc": 0.3, "compound_purity": 0.6, "compound_file": 0.3, "write_file_mixed": 0.4, "compound_merge": 0.3, "compound_le": 0.3, "c_eq": 0.3, "tl_eq": 0.3, "c_str": 0.3},
         "p_plots": 0.35,
         "p_logging": 0.35,
         "solver_fault_rates": [0.0, 0.0, 0.0, 0.08],
@@ -97,6 +97,7 @@ def run(tier: str, runs_override: Optional[int] = None) -> int:
             "clock_backward_jumps": cnt.get("clock_backward_jumps", 0),
             "log_records_formatted_under_DEBUG": cnt.get("log_records_formatted", 0),
             "sympy_solve_calls": cnt.get("sympy_solve_calls", 0),
+            "sympy_solve_by_unknowns_and_outcome": {k[len("sympy_solve:"):]: v for k, v in sorted(cnt.items()) if k.startswith("sympy_solve:")},
             "simulated_time_s": round(tot["sim_time_s"], 3),
             "distinct_states": {"measure": "distinct final pool-state digests (non-trivial sessions)", "count": tot["distinct_pool_states"]},
             "distinct_op_trigrams": tot["distinct_op_trigrams"],
